@@ -342,7 +342,7 @@ def C07(rep):
     chan_seq(rep, bc, n(rep.tier, 60, 800), 70, [1, 2, 3, 5], ["mix", "batch", "close", "async"], seed_off=808, label="spmc-seq")
     chan_sched(rep, bc, n(rep.tier, 120, 3000), [1, 2, 3], seed_off=909, label="spmc-sched")
     t = rep.tier
-    chan_sys(rep, bc, 3, n(t, 12, 14), caps=(1, 2), producers=1, consumers=2, items=2, shapes=n(t, ("drain",), ("drain", "leave")),
+    chan_sys(rep, bc, 3, n(t, 12, 14), caps=(1, 2), producers=1, consumers=2, items=2, shapes=("drain", "leave"),
              label="chan-sys-spmc")
     rep.assumptions += CHAN_ASSUME + ["broadcast payloads are cloned per receiver; only the stored original's destruction is observed (at most once)"]
 
